@@ -69,6 +69,10 @@ def oracle(c, ob, rng):
             if not dup and len(ops) == 1 and not (ops[0][0] in ('move', 'divide') and ops[0][1] not in prev_keys[col]):
                 msgs.append(('update %r raised %s' % (ops, o['err']), 'unexpected-error'))
             break
+        if o.get('links'):
+            msgs.append(('after update %r the node at %r has upward links that give the path %r'
+                         % (ops, o['links'][0][0], o['links'][0][1]), 'upward-link'))
+            break
         nodes = flat(o['tree'])
         named = set()
         other = 'B' if col == 'A' else 'A'
